@@ -9,6 +9,7 @@ from .. import externals as X
 from ..spec import bip32 as SP
 from ..spec import base58 as B58
 from .common import *
+from .common import _split
 
 
 def run(ctx):
@@ -98,6 +99,51 @@ def run(ctx):
         ob.saw('btc_hd_wallet/helper.py')
         if n_fn < 4:
             ob.undecided('the Base58 functions were not found in helper (%d)' % n_fn)
+    # "leading zero bytes map one-for-one to leading '1' characters ... exact inverse": neither coder may answer with one
+    # fixed value for an unbounded family of inputs.  Independent of how the function is written: a non-raising exit that
+    # returns a constant is allowed only on a path whose conditions pin the input itself (empty input).
+    from .. import refcmp as _rc
+    for fn in ('decode_base58', 'encode_base58'):
+        fi_ = p.get_function('helper.' + fn)
+        with ctx.obligation('C10.ONEFORONE', 'helper.' + fn, None, fi_.where) as ob:
+            _f, recs, _sig = _rc.describe(p, 'helper', fn, 'ecdsa', shared=(), param_types=_rc.param_types_of(fi_))
+            psym = T.sym('$' + fi_.params[0], type=_rc.param_types_of(fi_)[0]) if _rc.param_types_of(fi_)[0] else T.sym('$' + fi_.params[0])
+
+            def pins_input(c):
+                # a condition that restricts the parameter itself to finitely many values: it is empty / equals a constant
+                for x in _split(c):
+                    y = x[2] if T.is_op(x, 'NOT') else x
+                    if T.is_op(y, 'BOOL') and y[2] == psym and T.is_op(x, 'NOT'):
+                        return True
+                    if T.is_op(x, 'EQ') and psym in x[2:] and any(T.is_const(z) for z in x[2:]):
+                        return True
+                    if T.is_op(x, 'EQ') and T.len_(psym) in x[2:] and any(T.is_const(z) for z in x[2:]):
+                        return True
+                    if T.is_op(y, 'BOOL') and y[2] == T.len_(psym) and T.is_op(x, 'NOT'):
+                        return True
+                return False
+            exits = [r for r in recs if r[0] == 'seq' and r[1] != ('fall',)]
+            ob.require(bool(exits), '%s has a returning segment' % fn, fi_.where)
+
+            def walk_recs(rs):
+                for r in rs:
+                    if r[0] == 'seq':
+                        yield r[1]
+                    else:
+                        yield from walk_recs(r[3])
+                        yield from walk_recs(r[5])
+            for val in walk_recs(recs):
+                if val == ('fall',):
+                    continue
+                for cs, leaf in leaves(val):
+                    ob.evaluations += 1
+                    if T.tag(leaf) == 'raise' or leaf == ('fall',) or not T.is_const(leaf) or not isinstance(leaf[1], (bytes, str)):
+                        continue
+                    ob.require(any(pins_input(c) for c in cs), '%s returns the constant %s for every input on a path that does not '
+                               'depend on the input\'s length or content (%s): an unbounded family of inputs - e.g. every run of '
+                               'zero bytes / of \'1\' characters - gets one answer, so leading zeros are not mapped one-for-one and '
+                               'the coder is not invertible' % (fn, repr(leaf[1]), ' and '.join(T.show(c, maxdepth=3) for c in cs) or 'always'),
+                               fi_.where)
     with ctx.obligation('C10.ALPHA', 'helper.BASE58_ALPHABET', None, 'btc_hd_wallet/helper.py') as ob:
         ev = Evaluator(p, 'ecdsa')
         a = ev.module_const('helper', 'BASE58_ALPHABET')
